@@ -551,6 +551,9 @@ func (f *fuzzer) hold(i int) {
 	}
 	select {
 	case <-*ch:
+		// the client has gone; give the server the time to notice it before the rows flow again (the point of a held
+		// case is what the request does with rows that arrive after its client left)
+		time.Sleep(300 * time.Millisecond)
 	case <-time.After(5 * time.Second):
 	}
 }
